@@ -2,3 +2,6 @@
 ; IriExpander.Expand (it reads only its context and its argument; regexp and string functions are deterministic).
 (declare-fun expandF ((Array String Any) (Array String Bool) String) String)
 (declare-fun expandErrF ((Array String Any) (Array String Bool) String) Any)
+; compact IRIs prefix.local : the text before the first dot and the text after it
+(define-fun beforeDot ((s String)) String (str.substr s 0 (str.indexof s "." 0)))
+(define-fun afterDot ((s String)) String (str.substr s (+ 1 (str.indexof s "." 0)) (str.len s)))
